@@ -2,38 +2,39 @@
 use crate::c09::{big_g, exact_q};
 use crate::c14::ValueLevel;
 use crate::common::*;
-use exact::{dy, q, Q};
+use exact::{dy, Dy};
 use serde_json::{json, Value};
 use std::cell::Cell;
 use std::rc::Rc;
 use std::sync::Arc;
 use xplore::*;
 
-/// exact definite integral of one source piece over [a,b]: (value, majorant of the terms, extra absolute tolerance for ln)
+/// exact definite integral of one source piece over [a,b], every component multiplied by 840 = lcm(1..8) so that it is a
+/// dyadic number (sums over hundreds of pieces stay cheap): (840*value, 840*majorant of the terms, 840*extra absolute tolerance for ln)
 trait Piece: Nums + Copy + HasIntegral + 'static
 where
     Self::IntegralOf: Nums + ValueLevel + Translate + Copy + PartialEq,
 {
     const LOG: bool;
-    fn def_int(c: &[f64], a: f64, b: f64) -> (Q, Q, Q);
+    fn def_int(c: &[f64], a: f64, b: f64) -> (Dy, Dy, Dy);
     /// structural antiderivative check of a result piece against its source piece
     fn anti(src: &[f64], res: &[f64]) -> Result<(), String>;
 }
 macro_rules! piece_poly { ($($t:ident),*) => {$(
     impl Piece for $t {
         const LOG: bool = false;
-        fn def_int(c: &[f64], a: f64, b: f64) -> (Q, Q, Q) {
-            let (qa, qb) = (q(a), q(b));
+        fn def_int(c: &[f64], a: f64, b: f64) -> (Dy, Dy, Dy) {
+            let (qa, qb) = (dy(a), dy(b));
             let (mut pa, mut pb) = (qa.clone(), qb.clone());
-            let (mut s, mut m) = (Q::zero(), Q::zero());
+            let (mut s, mut m) = (Dy::zero(), Dy::zero());
             for i in 0..c.len() {
-                let ci = q(c[i]);
-                s = s.add(&ci.mul(&pb.sub(&pa)).div_i(i as i64 + 1));
-                m = m.add(&ci.abs().mul(&pb.abs().add(&pa.abs())).div_i(i as i64 + 1));
+                let ci = dy(c[i]).mul_i(840 / (i as i64 + 1));
+                s = s.add(&ci.mul(&pb.sub(&pa)));
+                m = m.add(&ci.abs().mul(&pb.abs().add(&pa.abs())));
                 pa = pa.mul(&qa);
                 pb = pb.mul(&qb);
             }
-            (s, m, Q::zero())
+            (s, m, Dy::zero())
         }
         fn anti(src: &[f64], res: &[f64]) -> Result<(), String> {
             // d/dx of the result piece is the source piece, coefficient-wise within one ulp
@@ -51,11 +52,11 @@ piece_poly!(Poly0, Poly1, Poly2, Poly3, Poly4, Poly5, Poly6, Poly7);
 macro_rules! piece_log { ($($t:ident),*) => {$(
     impl Piece for Log<$t> {
         const LOG: bool = true;
-        fn def_int(c: &[f64], a: f64, b: f64) -> (Q, Q, Q) {
+        fn def_int(c: &[f64], a: f64, b: f64) -> (Dy, Dy, Dy) {
             let (qq, m) = exact_q(c);
             let (ga, ma, sa) = big_g(&qq, &m, a);
             let (gb, mb, sb) = big_g(&qq, &m, b);
-            (gb.sub(&ga).to_q(), ma.add(&mb).to_q(), sa.add(&sb).to_q())
+            (gb.sub(&ga).mul_i(840), ma.add(&mb).mul_i(840), sa.add(&sb).mul_i(840))
         }
         fn anti(src: &[f64], res: &[f64]) -> Result<(), String> {
             let n = src.len();
@@ -80,8 +81,8 @@ const VEC_A: [f64; 9] = [1.0; 9];
 const VEC_B: [f64; 9] = [1.0, -0.75, 0.5, -0.25, 1.25, -1.5, 0.375, -0.625, 2.0];
 const VEC_C: [f64; 9] = [1.5, -2.25, 3.125, -4.0625, 5.5, -6.75, 7.875, -8.9375, 9.96875];
 
-fn tiny() -> Q {
-    q(2f64.powi(-40))
+fn tiny() -> Dy {
+    Dy::pow2(-40)
 }
 
 fn run<T>(ends: &[f64], cx: &mut Cx, ks: usize) -> Verdict
@@ -90,33 +91,46 @@ where
     T::IntegralOf: Nums + ValueLevel + Translate + Copy + PartialEq,
 {
     let n = ends.len();
-    // per-piece coefficient choice
+    // per-piece coefficient choice (3 vectors for 1-2 pieces, 2 beyond)
     let mut srcs: Vec<Vec<f64>> = vec![];
     // power-of-two scale of all coefficients and of k0.y (scale invariance; only for short functions to bound the cost)
     let sc = if n <= 2 { [1.0, 8.673617379884035e-19, 1099511627776.0][cx.choose(3)] } else { 1.0 };
     for i in 0..n {
-        let v = match cx.choose(3) { 0 => &VEC_A, 1 => &VEC_B, _ => &VEC_C };
-        srcs.push(v[..T::N].iter().map(|c| c * (1.0 + 0.25 * i as f64) * sc).collect());
+        let v = if n <= 2 { match cx.choose(3) { 0 => &VEC_A, 1 => &VEC_B, _ => &VEC_C } } else if n <= 8 { match cx.choose(2) { 0 => &VEC_B, _ => &VEC_C } } else if i % 2 == 0 { &VEC_B } else { &VEC_C };
+        srcs.push(v[..T::N].iter().map(|c| c * (1.0 + 0.25 * (i % 7) as f64) * sc).collect());
     }
     let lo = ends[0];
     let hi = ends[n - 1];
-    // k0.x: inside the first piece, exactly its end, beyond it, beyond the last end
-    let kx = match ks / 3 {
+    // k0.x: inside the first piece, exactly its end, beyond it, exactly the 2nd / 3rd end, exactly the last end, beyond the last end
+    let kmode = ks / 4;
+    let kx = match kmode {
         0 => if T::LOG { lo * 0.5 } else { lo - 0.75 },
         1 => lo,
         2 => if n > 1 && ends[1] > lo { lo * 0.5 + ends[1] * 0.5 } else { lo + 0.25 },
+        3 => ends[1.min(n - 1)],
+        4 => ends[2.min(n - 1)],
+        5 => hi,
         _ => hi + 1.5,
     };
-    let ky = [0.0, 2.5, -1e3][ks % 3] * sc;
+    // k0.y: alphabet, or on / next to the first piece's unshifted antiderivative at k0.x
+    let ky = match ks % 4 {
+        0 => 0.0,
+        1 => 2.5 * sc,
+        2 => -1e3 * sc,
+        _ => {
+            let f0 = T::from_nums(&srcs[0]).indefinite().evaluate(kx);
+            if f0.is_finite() { f0 * (1.0 + 3e-10) } else { 1.0 }
+        }
+    };
     let k0 = Knot { x: kx, y: ky };
     let f: Piecewise<T> = Piecewise { segments: ends.iter().zip(&srcs).map(|(&e, c)| Segment { end: e, poly: T::from_nums(c) }).collect() };
     let detail = |obs: Value| json!({"piece_type": type_name::<T>(), "ends": fjs(ends), "piece_coefficients": srcs.iter().map(|c| fjs(c)).collect::<Vec<_>>(), "k0": {"x": fj(kx), "y": fj(ky)}, "observation": obs});
-    if n >= 3 || ks / 3 == 0 {
+    if n >= 3 || kmode == 0 {
         cx.nontrivial();
     }
-    cx.class(ks / 3);
+    cx.class(kmode);
     if ends.windows(2).any(|w| w[0] == w[1]) {
-        cx.class(4);
+        cx.class(7);
     }
     if cx.sampling() {
         cx.sample(detail(json!("sample")));
@@ -194,10 +208,13 @@ where
                 let (want, m, extra) = T::def_int(&srcs[i], a, b);
                 let p = res.segments[i].poly;
                 let (fa, fb) = (p.evaluate(a), p.evaluate(b));
-                let tol = m.add(&q(p.nums()[0]).abs().mul_i(2)).mul(&tiny()).add(&extra);
-                let err = q(fb).sub(&q(fa)).sub(&want).abs();
-                if !(fa.is_finite() && fb.is_finite()) || !err.le(&tol) {
-                    return Err(Fail::new(format!("{name}: piece {i}: F_i(b)-F_i(a) is not the integral of the source piece over [a,b]"), detail(json!({"a": a, "b": b, "F_i(a)": fj(fa), "F_i(b)": fj(fb), "exact~": want.to_f64(), "tolerance~": tol.to_f64(), "result_piece": fjs(&p.nums())}))));
+                if !(fa.is_finite() && fb.is_finite()) {
+                    return Err(Fail::new(format!("{name}: piece {i} evaluates to a non-finite value"), detail(json!({"a": a, "b": b, "F_i(a)": fj(fa), "F_i(b)": fj(fb)}))));
+                }
+                let tol = m.add(&dy(p.nums()[0]).abs().mul_i(2 * 840)).mul(&tiny()).add(&extra);
+                let err = dy(fb).sub(&dy(fa)).mul_i(840).sub(&want).abs();
+                if !err.le(&tol) {
+                    return Err(Fail::new(format!("{name}: piece {i}: F_i(b)-F_i(a) is not the integral of the source piece over [a,b]"), detail(json!({"a": a, "b": b, "F_i(a)": fj(fa), "F_i(b)": fj(fb), "exact~": want.to_f64() / 840.0, "tolerance~": tol.to_f64() / 840.0, "result_piece": fjs(&p.nums())}))));
                 }
                 cx.ratio(err.to_f64() / tol.to_f64());
             }
@@ -231,28 +248,32 @@ where
     // the true integral: only when k0.x lies in the first piece's domain
     if kx < lo {
         let alpha: Vec<f64> = order_alphabet(ends).into_iter().filter(|t| t.is_finite() && t.abs() < 1e6 && (!T::LOG || *t > 1e-6)).collect();
-        // cumulative exact integral up to each breakpoint
+        // prefix[j] = 840*(k0.y + integral from k0.x to the left edge of piece j), with majorant and ln allowance
+        let mut prefix: Vec<(Dy, Dy, Dy)> = Vec::with_capacity(n);
+        let mut acc = (dy(ky).mul_i(840), dy(ky).abs().mul_i(840), Dy::zero());
+        let mut from = kx;
+        for i in 0..n {
+            prefix.push(acc.clone());
+            let (v, mm, ex) = T::def_int(&srcs[i], from, ends[i]);
+            acc = (acc.0.add(&v), acc.1.add(&mm).add(&dy(int.segments[i].poly.nums()[0]).abs().mul_i(840)), acc.2.add(&ex));
+            from = ends[i];
+        }
         for &t in &alpha {
             let j = ref_index(ends, t);
-            let mut want = q(ky);
-            let mut m = q(ky).abs();
-            let mut extra = Q::zero();
-            let mut from = kx;
-            for i in 0..=j {
-                let to = if i == j { t } else { ends[i] };
-                let (v, mm, ex) = T::def_int(&srcs[i], from, to);
-                want = want.add(&v);
-                m = m.add(&mm);
-                extra = extra.add(&ex);
-                m = m.add(&q(int.segments[i].poly.nums()[0]).abs());
-                from = to;
-            }
+            let left = if j == 0 { kx } else { ends[j - 1] };
+            let (v, mm, ex) = T::def_int(&srcs[j], left, t);
+            let want = prefix[j].0.add(&v);
+            let m = prefix[j].1.add(&mm).add(&dy(int.segments[j].poly.nums()[0]).abs().mul_i(840));
+            let extra = prefix[j].2.add(&ex);
             let got = int.evaluate(t);
             cx.evals(1);
+            if !got.is_finite() {
+                return Err(Fail::new("integral(k0) evaluates to a non-finite value", detail(json!({"t": fj(t), "got": fj(got)}))));
+            }
             let tol = m.mul(&tiny()).add(&extra);
-            let err = q(got).sub(&want).abs();
-            if !got.is_finite() || !err.le(&tol) {
-                return Err(Fail::new("integral(k0) evaluated at t is not k0.y + the integral of f from k0.x to t", detail(json!({"t": fj(t), "piece_in_force": j, "got": fj(got), "exact~": want.to_f64(), "tolerance~": tol.to_f64()}))));
+            let err = dy(got).mul_i(840).sub(&want).abs();
+            if !err.le(&tol) {
+                return Err(Fail::new("integral(k0) evaluated at t is not k0.y + the integral of f from k0.x to t", detail(json!({"t": fj(t), "piece_in_force": j, "got": fj(got), "exact~": want.to_f64() / 840.0, "tolerance~": tol.to_f64() / 840.0}))));
             }
             cx.ratio(err.to_f64() / tol.to_f64());
         }
@@ -273,7 +294,7 @@ pub fn check(thorough: bool, _seed: u64) -> Check {
         body: Box::new(move |unit, cx| {
             let d = unit / np;
             let ends = &ps[unit % np];
-            let ks = cx.choose(12);
+            let ks = cx.choose(28);
             match d {
                 0 => run::<Poly0>(ends, cx, ks),
                 1 => run::<Poly1>(ends, cx, ks),
@@ -285,9 +306,9 @@ pub fn check(thorough: bool, _seed: u64) -> Check {
                 _ => run::<Poly7>(ends, cx, ks),
             }
         }),
-        classes: vec![("k0.x_inside_first_piece", true), ("k0.x_at_first_end", true), ("k0.x_beyond_first_end", true), ("k0.x_beyond_last_end", true), ("duplicate_breakpoints", true)],
+        classes: vec![("k0.x_inside_first_piece", true), ("k0.x_at_first_end", true), ("k0.x_beyond_first_end", true), ("k0.x_at_second_end", true), ("k0.x_at_third_end", true), ("k0.x_at_last_end", true), ("k0.x_beyond_last_end", true), ("duplicate_breakpoints", true)],
         bounds: json!({"piece_types": "Poly0..Poly7", "shapes": format!("end lists of length 1..{maxlen} over {{-1,0.5,2,3}}"), "per piece": "coefficients from 3 vectors (all ones, alternating fractions, lane identifier), scaled per piece; functions of 1-2 pieces also with everything scaled by 2^-60 and 2^40",
-            "k0": "x in {inside first piece, = first end, beyond it, beyond last end} x y in {0,2.5,-1e3}", "evaluation points": "finite part of A(ends)"}),
+            "k0": "x in {inside first piece, = first end, beyond it, = second end, = third end, = last end, beyond last end} x y in {0, 2.5, -1e3, F0(k0.x)(1+3e-10)}", "evaluation points": "finite part of A(ends)"}),
     };
     let ls = log_shapes.clone();
     let log = Phase {
@@ -297,7 +318,7 @@ pub fn check(thorough: bool, _seed: u64) -> Check {
         body: Box::new(move |unit, cx| {
             let d = unit / nl;
             let ends = &ls[unit % nl];
-            let ks = cx.choose(12);
+            let ks = cx.choose(28);
             match d {
                 0 => run::<Log<Poly0>>(ends, cx, ks),
                 1 => run::<Log<Poly1>>(ends, cx, ks),
@@ -310,14 +331,42 @@ pub fn check(thorough: bool, _seed: u64) -> Check {
                 _ => run::<Log<Poly8>>(ends, cx, ks),
             }
         }),
-        classes: vec![("k0.x_inside_first_piece", true), ("k0.x_at_first_end", true), ("k0.x_beyond_first_end", true), ("k0.x_beyond_last_end", true), ("duplicate_breakpoints", true)],
+        classes: vec![("k0.x_inside_first_piece", true), ("k0.x_at_first_end", true), ("k0.x_beyond_first_end", true), ("k0.x_at_second_end", true), ("k0.x_at_third_end", true), ("k0.x_at_last_end", true), ("k0.x_beyond_last_end", true), ("duplicate_breakpoints", true)],
         bounds: json!({"piece_types": "Log<Poly0>..Log<Poly8>", "shapes": format!("end lists of length 1..{maxlen} over {{0.5,1,2,4}}"), "per piece": "as for polynomial pieces", "k0": "as for polynomial pieces (x>0)", "evaluation points": "positive finite part of A(ends)"}),
+    };
+    // big functions around size thresholds (the running knot is threaded through hundreds of pieces)
+    let big: Vec<Vec<f64>> = [9usize, 17, 33, 65, 129, 257, 300].into_iter().chain(if thorough { vec![513usize, 1025] } else { vec![] })
+        .flat_map(|n| {
+            let lin: Vec<f64> = (0..n).map(|i| 0.5 + i as f64 * 0.125).collect();
+            let mut dup = lin.clone();
+            for i in (3..n).step_by(7) { dup[i] = dup[i - 1]; }
+            vec![lin, dup]
+        })
+        .collect();
+    let nb = big.len();
+    let big = Arc::new(big);
+    let bigp = Phase {
+        name: "big-functions",
+        units: nb * 4,
+        split: 0,
+        body: Box::new(move |unit, cx| {
+            let ends = &big[unit / 4];
+            let ks = [0usize, 9, 14, 23][cx.choose(4)];
+            match unit % 4 {
+                0 => run::<Poly1>(ends, cx, ks),
+                1 => run::<Poly3>(ends, cx, ks),
+                2 => run::<Log<Poly1>>(ends, cx, ks),
+                _ => run::<Log<Poly4>>(ends, cx, ks),
+            }
+        }),
+        classes: (0..8).map(|_| ("", false)).collect::<Vec<_>>().into_iter().enumerate().map(|(i, _)| (["k0.x_inside_first_piece", "k0.x_at_first_end", "k0.x_beyond_first_end", "k0.x_at_second_end", "k0.x_at_third_end", "k0.x_at_last_end", "k0.x_beyond_last_end", "duplicate_breakpoints"][i], false)).collect(),
+        bounds: json!({"shapes": "n = 9,17,33,65,129,257,300 (513,1025 thorough) breakpoints 0.5 + i/8, strictly increasing and with every 7th breakpoint repeated", "piece_types": "Poly1, Poly3, Log<Poly1>, Log<Poly4>", "k0": "4 knot positions"}),
     };
     Check {
         id: "C11",
         rule: "choice tree: (piece type, shape) unit x k0 x one coefficient vector per piece (the running knot threaded from piece to piece is the state, each piece one step); each leaf runs the real Piecewise::integral, indefinite, integral_iter_ref and integral_iter; non-trivial = >=3 pieces or k0.x strictly inside the first piece".into(),
         assumptions: vec!["f64::ln within 1 ulp (propagated into the tolerance)".into(), "tolerance 2^-40 * sum of the magnitudes of the terms of the pieces involved (accumulated constants included)".into()],
-        phases: vec![poly, log],
+        phases: vec![poly, log, bigp],
         extra: Default::default(),
         controls: vec![],
     }
